@@ -146,6 +146,10 @@ func c03Ops() []c03Op {
 			stmts: func(c03State, c03Elem) []Stmt {
 				return []Stmt{ForRange{I: "ri", V: "re", X: Var{"v"}, Body: []Stmt{Print{Args: []Expr{StrLit{V: "range"}, Var{"ri"}, Var{"re"}}}}}}
 			}},
+		c03Op{name: "range w with _ as index", ok: always, apply: func(*c03State) {},
+			stmts: func(c03State, c03Elem) []Stmt {
+				return []Stmt{ForRange{I: "_", V: "re", X: Var{"w"}, Body: []Stmt{Print{Args: []Expr{StrLit{V: "range_"}, Var{"re"}}}}}}
+			}},
 		c03Op{name: "range w index-only", ok: always, apply: func(*c03State) {},
 			stmts: func(c03State, c03Elem) []Stmt {
 				return []Stmt{ForRange{I: "ri", X: Var{"w"}, Body: []Stmt{Print{Args: []Expr{StrLit{V: "rangei"}, Var{"ri"}, Index{X: Var{"w"}, I: Var{"ri"}}}}}}}
@@ -445,6 +449,7 @@ func c03Sweeps(r *findings.Run, stats *c03Stats, deadline time.Time) {
 				Print{Args: []Expr{StrLit{V: "idx"}, Var{"i"}, fr(Index{X: Var{"s"}, I: Var{"i"}}), fr(Index{X: Var{"s"}, I: Binary{Op: "-", L: Binary{Op: "-", L: Var{"n"}, R: lit(1)}, R: Var{"i"}}})}},
 			}},
 			ForRange{I: "k", V: "c", X: Var{"s"}, Body: []Stmt{Print{Args: []Expr{StrLit{V: "range"}, Var{"k"}, fr(Var{"c"})}}}},
+			ForRange{I: "_", V: "c", X: Var{"s"}, Body: []Stmt{Print{Args: []Expr{StrLit{V: "range_"}, fr(Var{"c"})}}}},
 			Print{Args: []Expr{StrLit{V: "concat"}, fr(Binary{Op: "+", L: Var{"s"}, R: Var{"s"}}), Len{X: Binary{Op: "+", L: Var{"s"}, R: StrLit{V: "xy"}}},
 				Binary{Op: "==", L: Var{"s"}, R: StrLit{V: s}}, Binary{Op: "!=", L: Var{"s"}, R: StrLit{V: s}}, Binary{Op: "==", L: Var{"s"}, R: StrLit{V: s + "z"}}, Binary{Op: "!=", L: Binary{Op: "+", L: Var{"s"}, R: StrLit{V: "z"}}, R: Var{"s"}}}},
 		}
